@@ -90,3 +90,81 @@ def run_part(ctx, cov, quick):
                          "was gone)" % (fan, h, worst), case)
     ctx.log("real exec in-flight part: %s" % [(r["fanout"], max(r["alive_seen"].values() or [0]), r["wall_s"])
                                                for r in summary["runs"]])
+
+
+# ------------------------------------------------------------------------------------------------------------------
+# C03, real part: pdsh started with stdin CLOSED (cron / daemon context, `pdsh ... <&-`).  Descriptor 0 is free, so the
+# first connection of the run (and, at fanout 1, every connection) gets descriptor number 0: rcmd_connect() == 0 is a
+# SUCCESS.  Every target must still get its command exactly once and have its complete output relayed, and pdsh must
+# end.  Purely functional (counts; a generous hard limit only decides "does not end").
+CLOSED_HELPER = r"""#!/bin/sh
+h=$1; n=$2
+i=0
+while [ $i -lt $n ]; do echo "line-$h-$i-xxxxxxxxxxxxxxxxxxxxxxxxxxxxxxxxxxxxxxxxxxxxxxxxxxxxxxxxxxxxxxxxxxxxxxxxxxxxxxxx"; i=$((i+1)); done
+echo "end-$h"
+"""
+CLOSED_RUNS = [
+    # (fanout, hosts, lines per host)
+    (1, ["a0", "a1", "a2"], 1),
+    (3, ["b0", "b1", "b2", "b3"], 2),
+    (1, ["c0", "c1"], 3000),          # ~300 kB per host: more than a socket buffer
+]
+
+
+def run_closed_one(ctx, exe, helper, run):
+    fan, hosts, nlines = run
+    argv = [exe, "-R", "exec", "-f", str(fan), "-w", ",".join(hosts), helper, "%h", str(nlines)]
+    t0 = time.time()
+    p = subprocess.Popen(argv, stdout=subprocess.PIPE, stderr=subprocess.PIPE, env={"PATH": "/usr/bin:/bin"},
+                         cwd=ctx.scratch, close_fds=True, preexec_fn=lambda: os.close(0))
+    try:
+        out, err = p.communicate(timeout=25)
+        rc = p.returncode
+    except subprocess.TimeoutExpired:
+        p.kill()
+        out, err = p.communicate()
+        rc = None
+    out, err = out.decode("latin-1"), err.decode("latin-1")
+    lines = out.splitlines()
+    per = {h: (sum(1 for l in lines if l.startswith("%s: line-%s-" % (h, h))), lines.count("%s: end-%s" % (h, h)))
+           for h in hosts}
+    case = {"real_closed": [fan, hosts, nlines], "argv": argv[1:], "stdin": "closed (os.close(0) before exec)",
+            "helper": CLOSED_HELPER, "rc": rc, "per_host(lines,end)": per, "stderr": err[-600:],
+            "wall_s": round(time.time() - t0, 1),
+            "how": "scratch build of pdsh, exec transport, started with descriptor 0 closed"}
+    offs = []
+    if rc is None:
+        offs.append(("real:closed-stdin:no-termination", "pdsh -R exec -f %d started with stdin closed did not end within "
+                     "25 s; relayed so far per host (lines, end marker): %s" % (fan, per)))
+    else:
+        bad = {h: v for h, v in per.items() if v != (nlines, 1)}
+        if bad:
+            offs.append(("real:closed-stdin:output-lost", "pdsh -R exec -f %d started with stdin closed: each host prints "
+                         "%d lines and an end marker; relayed (lines, end marker) %s; rc=%s stderr=%r" %
+                         (fan, nlines, bad, rc, err[-200:])))
+        elif rc != 0:
+            offs.append(("real:closed-stdin:rc", "pdsh -R exec -f %d started with stdin closed: rc=%s stderr=%r" %
+                         (fan, rc, err[-200:])))
+    return case, offs
+
+
+def run_closed_stdin(ctx, cov, only=None):
+    summary = {"runs": []}
+    cov["real_exec_stdin_closed"] = summary
+    repo = ctx.repo_build()
+    if not repo:
+        return
+    exe = os.path.join(repo, "src/pdsh/pdsh")
+    helper = os.path.join(ctx.scratch, "c03closed.sh")
+    with open(helper, "w") as f:
+        f.write(CLOSED_HELPER)
+    os.chmod(helper, 0o755)
+    for run in ([tuple(only)] if only else CLOSED_RUNS):
+        case, offs = run_closed_one(ctx, exe, helper, run)
+        cov["evaluations"] += 1
+        summary["runs"].append({"fanout": run[0], "hosts": run[1], "lines": run[2], "rc": case["rc"],
+                                "wall_s": case["wall_s"], "ok": not offs})
+        for sig, what in offs:
+            ctx.offender(sig, what, case)
+    ctx.log("real exec part, pdsh started with stdin closed (first connection gets descriptor 0): %s" %
+            [(r["fanout"], r["lines"], r["rc"], r["wall_s"], r["ok"]) for r in summary["runs"]])
